@@ -127,26 +127,24 @@ example : typecommonreal false (.enum 0 .llong) none (.basic .ulong) none = some
 
 /-! ## 4. `typehasint` and literal typing (6.4.4.1p5) -/
 
-def hasint_full : Prop :=
-  ∀ (sc : Bool) (t : ATy), t.wf = true → t.isInt = true → ∀ v, v < 2 ^ 64 → ∀ sign,
-    typehasint sc t v sign = decide (inRange (range sc t) (decode v sign))
-
-/-- `typehasint(&typebool, 2, false)` is true: `_Bool` is treated as an 8-bit unsigned type.
-Reachable only through C23 `enum E : _Bool { A = 2 };`, which cproc accepts. -/
-theorem hasint_counterexample : ¬ hasint_full := by
-  intro h
-  have := h false (.basic .bool) rfl rfl 2 (by decide) false
-  exact absurd this (by decide)
-
 /-- for ALL 64-bit patterns `v` and both readings: `typehasint t v sign` says exactly whether the
-denoted integer lies in the range of `t` -/
-theorem hasint_partial (sc : Bool) (t : ATy) (hwf : t.wf = true) (hi : t.isInt = true)
-    (hb : intTypeOf t ≠ .bool) (v : Nat) (hv : v < 2 ^ 64) (sign : Bool) :
+denoted integer lies in the range of `t` — every integer type object, enumerated types over any
+base, and `_Bool` with its single value bit.  (Full strength since fix 08f8fa4: `typehasint(&typebool,
+2, false)` used to be true, reachable through C23 `enum E : _Bool { A = 2 };`.) -/
+theorem hasint_correct (sc : Bool) (t : ATy) (hwf : t.wf = true) (hi : t.isInt = true)
+    (v : Nat) (hv : v < 2 ^ 64) (sign : Bool) :
     typehasint sc t v sign = decide (inRange (range sc t) (decode v sign)) := by
-  cases t with
-  | basic b => exact hasint_basic sc b hi hb v hv sign
-  | enum i b => exact hasint_enum sc i b hwf hb v hv sign
+  by_cases hb : intTypeOf t = .bool
+  · refine hasint_bool sc t ?_ v hv sign
+    cases t with
+    | basic b => left; simp only [intTypeOf] at hb; rw [hb]
+    | enum i b => right; simp only [intTypeOf] at hb; exact ⟨i, by rw [hb]⟩
+  · cases t with
+    | basic b => exact hasint_basic sc b hi hb v hv sign
+    | enum i b => exact hasint_enum sc i b hwf hb v hv sign
 
+example : typehasint false (.basic .bool) 2 false = false ∧ typehasint false (.enum 1 .bool) 1 false = true ∧
+    typehasint true (.enum 1 .bool) (2 ^ 64 - 1) true = false := by decide
 example : typehasint true (.basic .int) (2 ^ 64 - 2 ^ 31) true = true := by decide
 example : typehasint true (.basic .int) (2 ^ 64 - 2 ^ 31 - 1) true = false := by decide
 
